@@ -47,6 +47,14 @@ CHECKS = {
          "straddle year/month/week/leap-day boundaries, replayed through Data.get_axis_values and get_scores for 15 axes.",
     technique="TLA+ specs (Calendar.tla, Dataset.tla) model-checked with TLC; per-day facts and per-slice cases replayed into verif.util/axis/data",
     ref="6/C11"),
+ "C12": dict(
+    text="Report.tla defines the table of a command as the score matrix of Scoring.tla with one row per slice in axis order, a "
+         "descriptor that identifies the slice (calendar components, lead time, location id/lat/lon/elev, threshold), one score column "
+         "per input in command-line order, -acc as running sums and the -x threshold table; TLC checks the shape lemmas on every "
+         "(dataset, metric, axis) case; each is run through verif.driver.run with -type text and csv, with/without -f, -leg, -acc, and "
+         "the printed table (warnings stripped) is parsed and compared to the format's precision (6 / 4 significant digits).",
+    technique="TLA+ spec (Report.tla over Scoring.tla) evaluated by TLC; expected tables compared with the parsed output of verif.driver.run -type text|csv",
+    ref="6/C12"),
  "C14": dict(
     text="Dataset.tla Adj subtracts/divides the climatology forecast at the same coordinates (exact rationals; zero divisors give "
          "non-finite, hence dropped, cases); TLC enumerates climatologies with their own coverage, order, missing cells and zeros, "
